@@ -113,17 +113,17 @@ func (r *runner) construct() bool {
 
 func (r *runner) do(o *gop, sample bool) {
 	st, data := apply(r.tb, o)
-	so := seen{st: st, data: data, ln: r.tb.Len()}
+	so := seen{st: st, data: data, ln: safeLen(r.tb)}
 	if sample {
-		so.bytes, so.has = append([]byte{}, r.tb.Bytes()...), true
+		so.bytes, so.has = safeBytes(r.tb), true
 	}
 	r.h.ops = append(r.h.ops, o)
 	r.h.texObs = append(r.h.texObs, so)
 	if r.rb != nil {
 		st2, data2 := apply(r.rb, o)
-		so2 := seen{st: st2, data: data2, ln: r.rb.Len()}
+		so2 := seen{st: st2, data: data2, ln: safeLen(r.rb)}
 		if sample {
-			so2.bytes, so2.has = append([]byte{}, r.rb.Bytes()...), true
+			so2.bytes, so2.has = safeBytes(r.rb), true
 		}
 		r.h.refObs = append(r.h.refObs, so2)
 		if r.rb.Cap() != r.tb.Cap() {
@@ -171,9 +171,38 @@ func (r *runner) do(o *gop, sample bool) {
 	case kReWrite:
 		r.h.rewrites++
 	}
-	if r.tb.Len() == 0 && (o.k == kReset || o.k == kTruncate) {
+	if r.tlen() == 0 && (o.k == kReset || o.k == kTruncate) {
 		r.consumed = 0
 	}
+}
+
+// A broken implementation may leave the buffer in a state where even Len() or Bytes() misbehave (negative length,
+// offset beyond the storage): that is an observation (-1 / the marker 999), never a crash of the harness.
+func safeLen(b bufAPI) (n int) {
+	defer func() {
+		if recover() != nil {
+			n = -1
+		}
+	}()
+	return b.Len()
+}
+
+func safeBytes(b bufAPI) (p []byte) {
+	defer func() {
+		if recover() != nil {
+			p = []byte{9, 9, 9}
+		}
+	}()
+	return append([]byte{}, b.Bytes()...)
+}
+
+// tlen is Len() of the running tex.Buffer as the generator uses it (never negative)
+func (r *runner) tlen() int {
+	n := safeLen(r.tb)
+	if n < 0 {
+		return 0
+	}
+	return n
 }
 
 // ---- generator ----
@@ -195,7 +224,7 @@ func pick(rnd *rand.Rand, w []int) int {
 
 // a size biased to the boundaries grow() branches on
 func (r *runner) size(max int) int {
-	ln, cp := r.tb.Len(), r.tb.Cap()
+	ln, cp := r.tlen(), r.tb.Cap()
 	var v int
 	switch r.rnd.Intn(14) {
 	case 0:
@@ -349,7 +378,7 @@ var (
 )
 
 func (r *runner) next(w *weights) *gop {
-	ln := r.tb.Len()
+	ln := r.tlen()
 	inv := r.rnd.Intn(100) < w.invalid
 	ws := []int{w.write, w.writeString, w.writeByte, w.writeRune, w.writeRuneBytes, w.read, w.readByte, w.readRune, w.next,
 		w.unreadByte, w.unreadRune, w.truncate, w.reset, w.grow, w.readFrom, w.writeTo, w.qLen, w.qBytes, w.qString, w.qCap, w.rewrite}
@@ -458,7 +487,7 @@ func (r *runner) next(w *weights) *gop {
 
 // a ReWrite whose position sits on the edges of the storage and of the unread part
 func (r *runner) aReWrite(inv bool) *gop {
-	ln := r.tb.Len()
+	ln := r.tlen()
 	sto := r.consumed + ln
 	var pos int
 	switch r.rnd.Intn(10) {
@@ -576,8 +605,8 @@ var classes = []struct {
 	name  string
 	quick int // histories in the quick tier
 }{
-	{"eq-mixed", 260}, {"eq-rune", 160}, {"eq-grow", 180}, {"eq-io", 100}, {"eq-invalid", 120},
-	{"tex-rewrite", 150}, {"tex-rewrite-any", 60}, {"tex-newsized", 50},
+	{"eq-mixed", 220}, {"eq-rune", 140}, {"eq-grow", 160}, {"eq-io", 90}, {"eq-invalid", 100},
+	{"tex-rewrite", 130}, {"tex-rewrite-any", 50}, {"tex-newsized", 40},
 }
 
 func caseRnd(seed int64, class string, idx int) *rand.Rand {
